@@ -47,6 +47,11 @@ CHECKS = {
    technique="bounded exhaustive enumeration (k-deviation over all slots of ExA skeletons + full product of relation parts) of generated relationship fields carrying their intended reading, executed on both real readers",
    text="Every relationship field with <= k deviations (k=1-2 quick, 2-3 thorough) over entry kind (relation/empty/substvar), separator whitespace incl. newlines, trailing comma and, per relation, name, qualifier, 5 operators x 3 versions (epoch, '~'), plain and negated architecture lists, single/multi-term/negated profile groups and inter-part whitespace - plus the full 2700-relation product for one-relation fields x every single whitespace deviation - is read by the lossless reader (strict and tolerant, substvars on/off) and the lossy reader; entries, alternatives and every component must equal the model.",
    note="Whitespace is varied only where the statement allows; names/versions outside the menus are not explored."),
+ "C11": dict(
+   category="model_checking", design_ref="DESIGN.md §3 C11, §2.5",
+   technique="explicit-state breadth-first search over relation-field edit histories replayed on live rowan objects against a list-of-lists model; state cache on (full tree walk via the verif_dump hook, handle flags, model) plus no-cache cross-check",
+   text="From 13 initial fields (empty, single, alternatives, all optional parts, newline/odd whitespace layouts, empty entries, trailing comma, substvars first/last) every history of Relations::{push,insert,replace,remove_entry} (every valid index, 3 operand constructions), Entry::{push,replace,remove_relation}, Relation::remove and 7 relation-level edits (5 operand constructions incl. builder and From<lossy>; single edits through fresh handles and 28 two-edit sequences through one kept handle) is explored to depth 2 (quick) / 3 (thorough, 3.7M transitions); after every step the printed field must parse strictly to the model, the live object must report the model, and untouched entries and substvars must keep their text.",
+   note="Out-of-range indices and handles kept across root-level structural edits are not explored; emptied entries may be dropped or kept (DESIGN §3 C11)."),
  "C13": dict(
    category="exploration", design_ref="DESIGN.md §3 C13",
    technique="bounded exhaustive enumeration of generated relationship fields (same space as C10) through the real wrap_and_sort, with canonical-text, multiset-of-multisets, sortedness and fixed-point oracles",
